@@ -12,6 +12,25 @@ NOT_BUILT = "check not built yet in this round (claimed by DESIGN.md; " \
             "listed here until its static check exists and is exact)"
 
 CHECKS = {
+    "C08": {
+        "text": "PARTIAL: the per-day transition of the travel-length "
+                "kernel is executed symbolically and compared case by case "
+                "(entry negative/positive/zero x already-at-venue) with the "
+                "documented walk, plus start location, return leg and "
+                "returned value; the bye penalty's margin over twice the "
+                "largest distance, the upper-bound expression, the kernel "
+                "wiring and the instance's own bound are polynomial "
+                "identities.",
+        "design_ref": "DESIGN.md section 4, C08",
+        "note": "Does NOT decide validity of the upper bound, the strict "
+                "increase clause beyond the penalty margin, or the "
+                "published optimum table (search over plans). The "
+                "`already there` shortcut is accepted with or without the "
+                "test because the distance matrix has a zero diagonal.",
+        "technique": "symbolic execution of the loop body to ite-normal "
+                     "forms + exhaustive case analysis against a reference "
+                     "transition",
+    },
     "C15": {
         "text": "PARTIAL: the decoder's placement protocol (zeroed plan, "
                 "ascending day scan, paired mirrored stores only when both "
